@@ -51,10 +51,15 @@ Definition tag_stop_state (t : N) (n : nfa) : nfa :=
 Definition all_bytes : list N := map N.of_nat (seq 0 256).
 
 (* predicate: state 0 has an edge to state 1 for every symbol satisfying pred *)
+Definition pred_edges (set : list N) : list (N * nat) :=
+  map (fun c => (c, 1)) (filter (fun c => mem c set) all_bytes).
+
+(* proofs never look inside (comparing two unfolded copies of the 256-way
+   filter is exponential for the kernel); vm_compute is not affected *)
+Global Opaque pred_edges.
+
 Definition predicate (set : list N) : nfa :=
-  mknfa 0 1
-    [ mkst (map (fun c => (c, 1)) (filter (fun c => mem c set) all_bytes)) [] None;
-      new_state ].
+  mknfa 0 1 [ mkst (pred_edges set) [] None; new_state ].
 
 Definition empty : nfa := mknfa 0 0 [new_state].
 
